@@ -1177,6 +1177,11 @@ def round_is_identity(
         return _all_representable_in(unrounded.values, ctx_fmt)
     if not isinstance(ctx_fmt, AbstractableFormat):
         return False
+    # Every `AbstractFormat` contains `+0.0` -- it has no way to exclude it --
+    # so a target without a zero (`ExpFormat`: powers of two only, where zero
+    # rounds to NaN) changes at least that member.
+    if not ctx_fmt.representable_in(Float(s=False, exp=0, c=0)):
+        return False
     return unrounded <= AbstractFormat.from_format(ctx_fmt)
 
 
